@@ -10,3 +10,5 @@ package lisperror
 //@ func NewLispError(err, ast) (r)
 //@   panics never
 //@   pure
+
+//@ invariant *LispError(p) = p != nil
